@@ -5,3 +5,4 @@ import XcpProofs.Legal
 import XcpProofs.Extents
 import XcpProofs.Loops
 import XcpProofs.BackupLemmas
+import XcpProofs.Compose
